@@ -3,7 +3,7 @@ from vlib import cN, cbool, clist, copt
 
 ID = "C17"
 PROPERTIES_V = ["theories/Properties/C17.v"]
-MAKE_TARGETS = ["theories/Properties/C17.vo", "theories/Model/C17Cases.vo", "theories/Proofs/GenAgreeBlockRange.vo", "theories/Proofs/GenAgreeBuildParams.vo", "theories/Proofs/GenAgreeLimitCert.vo", "theories/Proofs/GenAgreeAdaptCert.vo", "theories/Proofs/GenAgreeGetParams.vo"]
+MAKE_TARGETS = ["theories/Properties/C17.vo", "theories/Model/C17Cases.vo", "theories/Proofs/GenAgreeBlockRange.vo", "theories/Proofs/GenAgreeBuildParams.vo", "theories/Proofs/GenAgreeLimitCert.vo", "theories/Proofs/GenAgreeAdaptCert.vo", "theories/Proofs/GenAgreeGetParams.vo", "theories/Proofs/GenAgreeProverFlow.vo"]
 HARNESS = "c17"
 CASES_IMPORTS = "From Coq Require Import NArith ZArith List.\nFrom Verif Require Import Model.CertCut Model.C17Cases."
 CASE_TYPE = "case17"
